@@ -34,6 +34,11 @@ class World:
                 self.fs[self.p(d + '/f.conf')] = ('file', MARK[d])
             elif stt == 'dir':
                 self.fs[self.p(d + '/f.conf')] = ('dir',)
+            elif stt in ('fifo', 'devlink', 'dangling'):
+                self.fs[self.p(d + '/f.conf')] = (stt,)        # there, but neither a regular file nor a directory: never a match
+            elif stt == 'filelink':
+                self.fs[self.p(d + '/f.conf')] = ('file', 21)  # a symbolic link to a regular file IS that file (abs.conf, marker 21)
+                self.links = getattr(self, 'links', []) + [self.p(d + '/f.conf')]
         if layout[0] == 'file':
             self.fs[self.p('d1/sub/f.conf')] = ('file', 11)
         self.fs[self.p('abs.conf')] = ('file', 21)
@@ -56,9 +61,19 @@ class World:
                 continue
             if v[0] == 'dir':
                 l.append('mkdir ' + enc(path))
+        links = getattr(self, 'links', [])
         for path, v in sorted(self.fs.items()):
-            if v[0] == 'file':
+            if v[0] == 'file' and path not in links:
                 l.append('mkfile %s %s' % (enc(path), enc('i = %d\n' % v[1])))
+        for path, v in sorted(self.fs.items()):
+            if path in links:
+                l.append('symlink %s %s' % (enc(self.p('abs.conf')), enc(path)))
+            elif v[0] == 'fifo':
+                l.append('mkfifo ' + enc(path))
+            elif v[0] == 'devlink':
+                l.append('symlink %s %s' % (enc('/dev/null'), enc(path)))
+            elif v[0] == 'dangling':
+                l.append('symlink %s %s' % (enc(self.p('nowhere')), enc(path)))
         l += ['passwd %s %s' % (enc('me'), enc(self.pw['me'])), 'passwd %s %s' % (enc('alice'), enc(self.pw['alice'])), 'me ' + enc('me')]
         return l
 
@@ -255,6 +270,20 @@ def main():
         seqs = list(itertools.product(range(len(POOL)), repeat=n))
         shards = [([s], layouts[k::3], [0x00, 0xBE, 0xFF], 'asan', dl) for s in seqs for k in range(3)]
         engine.phase(ck, 'search-path sequences of length %d x 81 layouts x %d names x 3 fill bytes' % (n, len(NAMES)), shard, shards, sequences=len(seqs))
+    # entries that are there but are neither regular files nor directories (a FIFO, a link to a device, a dangling link) and links
+    # to regular files: one of them in one directory, the others absent or holding the regular file
+    special = []
+    for pos in range(4):
+        for kind in ('fifo', 'devlink', 'dangling', 'filelink'):
+            for rest in itertools.product(['absent', 'file'], repeat=3):
+                lay = list(rest)
+                lay.insert(pos, kind)
+                special.append(tuple(lay))
+    # (with a search path set: without one a name is opened as it stands, and opening a FIFO nobody writes to waits for ever)
+    seqs = [s for n in range(1, 3) for s in itertools.product(range(len(POOL)), repeat=n)]
+    shards = [([s], special[k::2], [0xBE], 'asan', dl) for s in seqs for k in range(2)]
+    engine.phase(ck, 'search-path sequences of length 1..2 x %d layouts with a FIFO / device link / dangling link / link to a regular file' % len(special),
+                 shard, shards, sequences=len(seqs))
     if not quick:
         seqs = list(itertools.product(range(len(POOL)), repeat=1)) + [()]
         shards = [([s], layouts[::9], [None], 'msan', dl) for s in seqs]
